@@ -79,6 +79,13 @@ class PartitionContainerBase(TypeReaderCryptoBase):
 
         self.partitions = {}
 
+    def close(self):
+        """Close the container. The level files of its partitions are closed with it."""
+        if not self.closed:
+            for partition in getattr(self, 'partitions', {}).values():
+                partition.close()
+        super().close()
+
     def _load_partition(self, index: int, partdesc: bytes, partition_offset: int, partition_size: int):
         subfile = SubsectionIO(self._file, partition_offset, partition_size)
 
